@@ -15,6 +15,9 @@ from pymarkdown.plugin_manager.rule_plugin import RulePlugin
 from pymarkdown.tokens.container_markdown_token import ContainerMarkdownToken
 from pymarkdown.tokens.list_start_markdown_token import ListStartMarkdownToken
 from pymarkdown.tokens.markdown_token import MarkdownToken
+from pymarkdown.tokens.setext_heading_markdown_token import (
+    SetextHeadingMarkdownToken,
+)
 
 
 # pylint: disable=too-many-instance-attributes
@@ -101,6 +104,13 @@ class RuleMd009(RulePlugin):
         self.__inline_token_index = 0
         self.__container_token_stack = []
 
+    @staticmethod
+    def __first_line_of(token: MarkdownToken) -> int:
+        # A SetExt Heading token carries the line of its underline; its text starts earlier.
+        if token.is_setext_heading:
+            return cast(SetextHeadingMarkdownToken, token).original_line_number
+        return token.line_number
+
     def next_line(self, context: PluginScanContext, line: str) -> None:
         """
         Event that a new line is being processed.
@@ -108,7 +118,9 @@ class RuleMd009(RulePlugin):
         if (
             self.__leaf_token_index + 1 < len(self.__leaf_tokens)
             and self.__line_index
-            == self.__leaf_tokens[self.__leaf_token_index + 1].line_number
+            == RuleMd009.__first_line_of(
+                self.__leaf_tokens[self.__leaf_token_index + 1]
+            )
             and self.__leaf_tokens[self.__leaf_token_index + 1].is_leaf
         ):
             self.__leaf_token_index = self.__inline_token_index + 1
@@ -116,7 +128,9 @@ class RuleMd009(RulePlugin):
         if (
             self.__inline_token_index + 1 < len(self.__leaf_tokens)
             and self.__line_index
-            == self.__leaf_tokens[self.__inline_token_index + 1].line_number
+            == RuleMd009.__first_line_of(
+                self.__leaf_tokens[self.__inline_token_index + 1]
+            )
         ):
             self.__inline_token_index += 1
 
